@@ -435,8 +435,20 @@ def fn_anatomy(text: str) -> FnAnatomy:
         k += 1
     if k >= len(ct):
         raise RsxError('not a function item')
-    # signature: find body '{' at depth 0 (angle brackets ignored; parens/brackets tracked)
-    j = k + 1
+    # signature: find body '{' at depth 0 (parens/brackets tracked; the generic parameter list skipped)
+    j = k + 2
+    if j < len(ct) and ct[j].text == '<':
+        depth = 0
+        while j < len(ct):
+            if ct[j].text == '<':
+                depth += 1
+            elif ct[j].text == '>':
+                depth -= 1
+            elif ct[j].text == '>>':
+                depth -= 2
+            j += 1
+            if depth <= 0:
+                break
     arrow = ret_start = ret_end = where_start = None
     while j < len(ct):
         tx = ct[j].text
